@@ -13,3 +13,5 @@ for p in "$@"; do
 done
 git -C /repo checkout -- . 
 git -C /repo clean -fdq src tests 2>/dev/null
+# leave a harness binary that matches the clean tree behind (replays run it directly)
+(cd /verif/harness && CARGO_NET_OFFLINE=true cargo build --offline --quiet 2>/dev/null)
